@@ -5,6 +5,10 @@ mod c05;
 mod c06;
 mod c07;
 mod c08;
+mod c09;
+mod c10;
+mod c11;
+mod c19;
 mod cmp;
 mod obs;
 
@@ -23,6 +27,14 @@ fn main() {
         "c06" => c06::run(tier),
         "c07" => c07::run(tier),
         "c08" => c08::run(tier),
+        "c09" => c09::run(tier),
+        "c09deep" => c09::deep_child(args.get(2).map(|s| s.as_str()).unwrap_or("")),
+        "c09chain" => c09::chain_child(args.get(2).and_then(|s| s.parse().ok()).unwrap_or(1)),
+        "c10" => c10::run(tier),
+        "c11" => c11::run(tier),
+        "c10child" => c10::child(tier),
+        "c10cmp" => c10::compare(tier),
+        "c19" => c19::run(tier),
         _ => {
             eprintln!("usage: vparse <c01|...> [--tier quick|thorough]");
             2
